@@ -43,7 +43,12 @@ FILEMAP = [
     ('src/iface/interface/tcp.rs', ['C11', 'C10']), ('src/iface/interface/udp.rs', ['C11', 'C09']),
     ('src/iface/interface/mod.rs', ['C13', 'C16', 'C12', 'C09']),
     ('src/wire/sixlowpan/*', ['C06', 'C07', 'C20']),
-    ('src/wire/ip.rs', ['C08', 'C06']),
+    ('src/wire/ip.rs', ['C08', 'C06', 'C11', 'C16']),
+    ('src/wire/ipv4.rs', ['C06', 'C07', 'C11', 'C16', 'C18']), ('src/wire/ipv6.rs', ['C06', 'C07', 'C11', 'C16']),
+    ('src/wire/ethernet.rs', ['C06', 'C07', 'C16']), ('src/wire/arp.rs', ['C06', 'C07', 'C16']),
+    ('src/wire/ndisc*.rs', ['C06', 'C07', 'C16', 'C10']), ('src/wire/icmpv*.rs', ['C06', 'C07', 'C11', 'C10']),
+    ('src/wire/igmp.rs', ['C06', 'C07', 'C10']), ('src/wire/mld.rs', ['C06', 'C07', 'C10']),
+    ('src/wire/ieee802154.rs', ['C06', 'C07', 'C16', 'C20']),
     ('src/wire/dhcpv4.rs', ['C06', 'C07', 'C18']), ('src/wire/dns.rs', ['C19', 'C07']),
     ('src/wire/tcp.rs', ['C06', 'C07', 'C08']), ('src/wire/udp.rs', ['C06', 'C07', 'C08']),
     ('src/wire/*.rs', ['C06', 'C07']),
@@ -148,7 +153,7 @@ def worker(k, q, rq):
         try:
             rc, out = sh(['cargo', 'test', '--offline', '--lib', '--quiet'], cwd=repo, env=env, timeout=1500)
             if rc != 0:
-                m['status'] = 'build' if 'error[' in out or 'error:' in out and 'test result' not in out else 'tests'
+                m['status'] = 'build' if 'could not compile' in out else 'tests'
             else:
                 caught = []
                 detail = {}
@@ -183,7 +188,7 @@ def main():
     rng = random.Random(seed)
     rc, out = sh(['git', '-C', REPO, 'ls-files', 'src'])
     files = [f for f in out.split() if f.endswith('.rs') and checks_for(f) and fnmatch.fnmatch(f, 'src/' + fglob)
-             and '/tests' not in f and '/phy/' not in f and '/rpl' not in f and 'ipsec' not in f]
+             and '/tests' not in f and '/phy/' not in f and '/rpl' not in f and 'ipsec' not in f and 'pretty_print' not in f]
     muts = []
     for f in files:
         n = per_file * (3 if f.endswith('socket/tcp.rs') or f.endswith('interface/mod.rs') else 1)
